@@ -265,6 +265,26 @@ theorem slice_with_step_minus_one_reverses (xs : List Val) :
     ∃ idx, sliceIndices xs.length none none (some (-1)) = .ok idx ∧ pick xs idx = xs.reverse :=
   slice_reverse xs
 
+/-- **`xs[::k]` with `k > 0` takes every `k`-th element, starting with the first**: the result has as many elements as
+    there are multiples of `k` below the length (`⌈n / k⌉`), its `j`-th element is `xs[j * k]`, and every selected position
+    lies inside the list (nothing is skipped silently by `pick`) -/
+theorem slice_with_positive_step_takes_every_kth (xs : List Val) (k : Nat) (hk : 0 < k) :
+    ∃ idx, sliceIndices xs.length none none (some (k : Int)) = .ok idx ∧
+      (∀ i, i ∈ idx → i < xs.length) ∧
+      (pick xs idx).length = (xs.length + k - 1) / k ∧
+      ∀ j, j < (xs.length + k - 1) / k → (pick xs idx)[j]? = xs[j * k]? := by
+  obtain ⟨h1, h2⟩ := slice_step_indices xs.length k hk
+  obtain ⟨h3, h4⟩ := slice_step_elems xs k hk
+  exact ⟨_, h1, h2, h3, h4⟩
+
+/-- **a zero step is refused** whatever the bounds (`ValueError: slice step cannot be zero`), it never selects anything -/
+theorem slice_with_zero_step_is_refused (n : Nat) (a b : Option Int) :
+    sliceIndices n a b (some 0) = .error .valueError :=
+  slice_step_zero n a b
+
+/-- `[10, 20, 30, 40, 50][::2]` = `[10, 30, 50]` (⌈5 / 2⌉ = 3 elements) -/
+example : pick [10, 20, 30, 40, 50] ((sliceIndices 5 none none (some 2)).toOption.getD []) = [10, 30, 50] := by decide +kernel
+
 /-- **reading `c[a:b]` from a list object** returns a NEW list object holding exactly that segment, and leaves every object
     that existed before as it was (`HeapExt`): the slice is a copy of the spine, never a view -/
 theorem slice_read_returns_new_segment (s : BState) (a : Nat) (xs : List Val) (lo hi : Option Int)
@@ -277,6 +297,25 @@ theorem slice_read_returns_new_segment (s : BState) (a : Nat) (xs : List Val) (l
   refine ⟨?_, SqProps.C13.of_allocList rfl⟩
   unfold pyGetItem
   simp only [hg, h1, h2]
+
+/-- **reading `c[::k]` (`k > 0`) from a list object** returns a NEW list object holding every `k`-th element, and leaves every
+    object that existed before as it was -/
+theorem step_slice_read_returns_new_list (s : BState) (a : Nat) (xs : List Val) (k : Nat) (hk : 0 < k)
+    (hg : s.heap.get? a = some (.list xs)) :
+    ∃ ys, pyGetItem s (.ref a) (.slice none none (some (k : Int))) = .ok (allocList s ys) ∧
+      ys.length = (xs.length + k - 1) / k ∧ (∀ j, j < (xs.length + k - 1) / k → ys[j]? = xs[j * k]?) ∧
+      SqProps.C13.HeapExt s.heap (allocList s ys).2.heap := by
+  obtain ⟨idx, h1, _, h3, h4⟩ := slice_with_positive_step_takes_every_kth xs k hk
+  refine ⟨pick xs idx, ?_, h3, h4, SqProps.C13.of_allocList rfl⟩
+  unfold pyGetItem
+  simp only [hg, h1]
+
+/-- reading `c[a:b:0]`-shaped slice values from a list object is refused and allocates nothing -/
+theorem zero_step_slice_read_is_refused (s : BState) (a : Nat) (xs : List Val) (lo hi : Option Int)
+    (hg : s.heap.get? a = some (.list xs)) :
+    pyGetItem s (.ref a) (.slice lo hi (some 0)) = .error .valueError := by
+  unfold pyGetItem
+  simp only [hg, slice_with_zero_step_is_refused]
 
 /-- `[10, 20, 30, 40][-3:3]` = `[20, 30]`; `[1:100]` clamps; crossing bounds give `[]` -/
 example : pick [10, 20, 30, 40] ((sliceIndices 4 (some (-3)) (some 3) none).toOption.getD []) = [20, 30] ∧
